@@ -89,13 +89,21 @@ def issues(notes):
 
 
 # ---------------------------------------------------------------------------------------------
-def rule_bal(ctx, rep, rule="R-BAL"):
-    """Every normal path of every API body has I == the signature-derived expectation."""
+def scope_closure(F, roots):
+    """Keys of the given root bodies and of everything they may call (local call graph, closures included)."""
+    g = cfg.call_graph(F)
+    return set(cfg.reachable_from(g, [b["key"] for b in roots])) | set(b["key"] for b in roots)
+
+
+def rule_bal(ctx, rep, rule="R-BAL", scope=None):
+    """Every normal path of every API body has I == the signature-derived expectation.
+    scope(F) -> set of body keys: restrict the premise to the operations a property is about (and what they are built from)."""
     npaths = 0
     for tag, F, E in ctx.each():
         A = analysis(tag, F, E)
+        only = scope(F) if scope else None
         for b in F.body_list:
-            if not is_api(F, b):
+            if not is_api(F, b) or (only is not None and b["key"] not in only):
                 continue
             key = b["key"]
             if key in A.errors:
@@ -129,7 +137,7 @@ def rule_bal(ctx, rep, rule="R-BAL"):
     return npaths
 
 
-def rule_unw(ctx, rep, rule="R-UNW", da=False):
+def rule_unw(ctx, rep, rule="R-UNW", da=False, scope=None):
     """Unwind paths: no double release; no leak of a live handle when user code or a library panic starts the unwinding."""
     npaths = 0
     tolerated = {}
@@ -137,8 +145,9 @@ def rule_unw(ctx, rep, rule="R-UNW", da=False):
     for tag, F, E in ctx.each():
         A = analysis(tag, F, E)
         is_da = tag.endswith("+da")
+        only = scope(F) if scope else None
         for b in F.body_list:
-            if not is_api(F, b) or b["key"] in A.errors:
+            if not is_api(F, b) or b["key"] in A.errors or (only is not None and b["key"] not in only):
                 continue
             key = b["key"]
             cls, exp = sig_class(F, b)
